@@ -31,6 +31,10 @@ def present (table : List Route) (exp : Route) : Bool :=
 def holds (table : List Route) (exp : Route) : Bool :=
   !present table exp || table.any (covers exp)
 
+/-- EVERY call `caller → callee` in the source covers the expected route (for callers whose branches - the 2-D and the 3-D one - must agree). -/
+def holdsAll (table : List Route) (exp : Route) : Bool :=
+  table.all fun g => !(g.1 == exp.1 && g.2.1 == exp.2.1) || covers exp g
+
 /-- `compute_features` and below (C01, C04, C05): one signal, one rate, one band, one centring and the caller's option dictionaries go down the
 chain; the cyclepoint stage hands `find_extrema`'s peaks and troughs, in this order, to `find_zerox`; the burst features are computed from the
 table `compute_shape_features` returned and the signal `compute_features` was given. -/
@@ -99,14 +103,36 @@ def group : List Route := [
   ("compute_features_3d", "_proxy_3d", [("fs", "fs"), ("f_range", "f_range"), ("return_samples", "return_samples")]),
   ("_proxy_3d", "compute_features_2d", [("fs", "fs"), ("f_range", "f_range"), ("axis", "None"), ("return_samples", "return_samples")])]
 
-/-- the object (C14): a fit hands every stored setting to the homonymous parameter of `compute_features` (the thresholds to `threshold_kwargs`);
+/-- the object (C14): a fit hands the call's signal, rate and band (which it also stores: an attribute the method assigns once is canonicalised to the
+value assigned) and every stored setting to the homonymous parameter of `compute_features` (the thresholds to `threshold_kwargs`);
 `plot` hands the stored table, signal, rate and thresholds to the summary plot. -/
 def object : List Route := [
-  ("Bycycle.fit", "compute_features", [("sig", "self.sig"), ("fs", "self.fs"), ("f_range", "self.f_range"), ("center_extrema", "self.center_extrema"),
+  ("Bycycle.fit", "compute_features", [("sig", "sig"), ("fs", "fs"), ("f_range", "f_range"), ("center_extrema", "self.center_extrema"),
       ("burst_method", "self.burst_method"), ("burst_kwargs", "self.burst_kwargs"), ("threshold_kwargs", "self.thresholds"),
       ("find_extrema_kwargs", "self.find_extrema_kwargs"), ("return_samples", "self.return_samples")]),
   ("Bycycle.plot", "plot_burst_detect_summary", [("df_features", "self.df_features"), ("sig", "self.sig"), ("fs", "self.fs"),
-      ("threshold_kwargs", "self.thresholds"), ("xlim", "xlim"), ("plot_only_result", "plot_only_results"), ("interp", "interp")])]
+      ("threshold_kwargs", "self.thresholds"), ("xlim", "xlim"), ("plot_only_result", "plot_only_results"), ("interp", "interp")]),
+  -- `recompute_edges(r)`: the stored table is recomputed with the thresholds `reduce_thresholds(r)` returns (ObjMachine.lean, `edges`)
+  ("Bycycle.recompute_edges", "BycycleBase.reduce_thresholds", [("reduction", "reduction")]),
+  ("Bycycle.recompute_edges", "recompute_edges", [("df_features", "self.df_features"), ("threshold_kwargs", "<self.reduce_thresholds>")])]
+
+/-- the option dictionary a group fit builds from its stored settings. -/
+def groupKwargs : String :=
+  "{burst_kwargs: self.burst_kwargs, burst_method: self.burst_method, center_extrema: self.center_extrema, " ++
+  "find_extrema_kwargs: self.find_extrema_kwargs, threshold_kwargs: self.thresholds}"
+
+/-- the group object (C11, C12, C14; GroupMachine.lean): a fit hands the call's array, rate, band, axis and number of jobs, the stored sample switch and ONE option
+dictionary built from the stored settings to the 2-D / 3-D analysis; every per-signal model is constructed with the group's settings and loaded with the
+group's rate and band; an edge recomputation hands its reduction to every model - in the 2-D AND the 3-D branch (`holdsAll`). -/
+def groupObject : List Route := [
+  ("BycycleGroup.fit", "compute_features_2d", [("sigs", "sigs"), ("fs", "fs"), ("f_range", "f_range"), ("compute_features_kwargs", groupKwargs),
+      ("axis", "axis"), ("return_samples", "self.return_samples"), ("n_jobs", "n_jobs"), ("progress", "progress")]),
+  ("BycycleGroup.fit", "compute_features_3d", [("sigs", "sigs"), ("fs", "fs"), ("f_range", "f_range"), ("compute_features_kwargs", groupKwargs),
+      ("axis", "axis"), ("return_samples", "self.return_samples"), ("n_jobs", "n_jobs"), ("progress", "progress")]),
+  ("BycycleGroup.fit", "Bycycle", [("center_extrema", "self.center_extrema"), ("burst_method", "self.burst_method"), ("burst_kwargs", "self.burst_kwargs"),
+      ("thresholds", "self.thresholds"), ("find_extrema_kwargs", "self.find_extrema_kwargs"), ("return_samples", "self.return_samples")]),
+  ("BycycleGroup.fit", "Bycycle.load", [("fs", "fs"), ("f_range", "f_range")]),
+  ("BycycleGroup.recompute_edges", "Bycycle.recompute_edges", [("reduction", "reduction")])]
 
 /-- the plots (C20): table and signal are limited to the SAME window (`xlim[0]`, `xlim[1]`), the summary keeps the original sample indices
 (`reset_indices=False`, the offset is applied by the caller) and hands the normalised signal, the rate and the window to its panels. -/
